@@ -32,6 +32,7 @@ type FuncContract struct {
 	LoopInv    map[int][]*Clause
 	LoopDec    map[int]*Clause
 	LoopExit   map[int][]*Clause // `loop K exit EXPR`: holds whenever loop K is left (checked on every exit edge)
+	LoopStep   map[int][]*Clause // `loop K step EXPR`: relates the end of an iteration to its beginning (athead), on every back edge
 	LoopMod    map[int][]string
 	CallAsrt   []*Clause
 	RetAsrt    []*Clause // assert at return K EXPR
@@ -222,6 +223,11 @@ func parseContractFile(path string) (*PkgContracts, error) {
 					cur.LoopInv[k] = append(cur.LoopInv[k], &Clause{Kind: "loopinv", Text: f[2], Loop: k, Line: it.line})
 				case "decreases":
 					cur.LoopDec[k] = &Clause{Kind: "loopdec", Text: f[2], Loop: k, Line: it.line}
+				case "step":
+					if cur.LoopStep == nil {
+						cur.LoopStep = map[int][]*Clause{}
+					}
+					cur.LoopStep[k] = append(cur.LoopStep[k], &Clause{Kind: "loopstep", Text: f[2], Loop: k, Line: it.line})
 				case "exit":
 					if cur.LoopExit == nil {
 						cur.LoopExit = map[int][]*Clause{}
@@ -285,6 +291,9 @@ func (fc *FuncContract) allClauses() []*Clause {
 		out = append(out, c)
 	}
 	for _, cs := range fc.LoopExit {
+		out = append(out, cs...)
+	}
+	for _, cs := range fc.LoopStep {
 		out = append(out, cs...)
 	}
 	out = append(out, fc.CallAsrt...)
